@@ -203,7 +203,7 @@ STATS = {"branch_queries": 0, "branch_time": 0.0, "paths": 0}
 class Ctx:
     cur = None
     RLIMIT = int(os.environ.get("SYMSIG_BRANCH_RLIMIT", "3000000"))
-    TIMEOUT_MS = int(os.environ.get("SYMSIG_BRANCH_TIMEOUT_MS", "20000"))
+    WALL_S = float(os.environ.get("SYMSIG_BRANCH_WALL_S", "8"))
 
     def __init__(self, prefix=()):
         self.prefix = list(prefix)
@@ -211,8 +211,6 @@ class Ctx:
         self.decisions = []
         self.pc = []            # list of B
         self.pending = []
-        self.solver = z3.Solver()
-        self.solver.set("timeout", self.TIMEOUT_MS)
         self.naux = 0
         self.defined = []       # (what, B) definedness assumptions
         self.aux = []           # (name, description)
@@ -229,12 +227,8 @@ class Ctx:
                 raise Abort("contradictory assumption %s" % (note or ""))
             return
         self.pc.append(b)
-        self.solver.add(b.z3())
         if self.model is not None:
-            try:
-                if not z3.is_true(self.model.eval(b.z3(), model_completion=True)):
-                    self.model = None
-            except z3.Z3Exception:
+            if self._model_says(b) is not True:
                 self.model = None
 
     def assume(self, b, what="assume"):
@@ -256,22 +250,22 @@ class Ctx:
         return Rat.var(name)
 
     def _check(self, extra=None):
+        """satisfiability of the path condition (+ extra) in a forked, hard-limited solver process"""
+        from . import solve
         self.nq += 1
         STATS["branch_queries"] += 1
         import time
         t = time.time()
-        s = self.solver
+        zs = [b.z3() for b in self.pc]
+        names = set()
+        for b in self.pc:
+            names |= {A.var_name(v) for v in b.vars()}
         if extra is not None:
-            s.push()
-            s.add(extra.z3())
-        r = str(s.check())
+            zs.append(extra.z3())
+            names |= {A.var_name(v) for v in extra.vars()}
+        r, env = solve.hard_query(zs, sorted(names), self.WALL_S, self.RLIMIT)
         if r == "sat":
-            try:
-                self.model = s.model()
-            except z3.Z3Exception:
-                self.model = None
-        if extra is not None:
-            s.pop()
+            self.model = env
         STATS["branch_time"] += time.time() - t
         return r
 
@@ -281,17 +275,15 @@ class Ctx:
         return self._check(b)
 
     def _model_says(self, b):
+        """truth value of b under the last model (a hint: models with algebraic values are approximations, so a
+        wrong hint can only make us explore an infeasible path, which is sound)"""
         if self.model is None:
             return None
         try:
-            v = self.model.eval(b.z3(), model_completion=True)
-        except z3.Z3Exception:
+            env = _EnvById(self.model)
+            return bool(b.eval(env))
+        except (KeyError, ZeroDivisionError):
             return None
-        if z3.is_true(v):
-            return True
-        if z3.is_false(v):
-            return False
-        return None
 
     def branch(self, b):
         if b.k == "c":
@@ -379,6 +371,16 @@ class Ctx:
                     v = (c, s)
             self._memo[key] = v
         return v
+
+
+class _EnvById:
+    """adapter: variable id -> value from a name-keyed model; unknown variables default to 0 (model completion)"""
+
+    def __init__(self, env):
+        self.env = env
+
+    def __getitem__(self, vid):
+        return self.env.get(A.var_name(vid), Fraction(0))
 
 
 def cur():
@@ -854,9 +856,8 @@ class SymK:
             if tries > 64:
                 raise Unsupported("ceil/floor: too many candidate values")
             if ctx.model is None and ctx._check() != "sat":
-                raise Abort("path infeasible / unknown at ceil")
-            val = ctx.model.eval(_rat_z3_value(r), model_completion=True)
-            fr = _z3_to_fraction(val)
+                raise Unsupported("no model for the path at ceil/floor")
+            fr = Fraction(r.eval(_EnvById(ctx.model)))
             k = math.ceil(fr) if up else math.floor(fr)
             kk = Rat.const(k)
             if up:   # k-1 < r <= k
